@@ -127,6 +127,10 @@ func (x *Exec) walkWithInvariant(c *CallCtx, d collDesc, h int, fn *ssa.Function
 		bound["$n"] = SV{T: wn, Sort: "Int"}
 		sv, err := evalSpecFns(cl.node, env, x.sigs, bound, map[string]FunSig{"$key": {Args: []string{"Int"}, Ret: ks}, "$idx": {Args: []string{ks}, Ret: "Int"}}, map[string]string{"$key": wkey, "$idx": widx})
 		if err != nil {
+			if strings.Contains(err.Error(), "unknown identifier") && fr.isTop {
+				x.addInapplicable(fmt.Sprintf("walk%d.init", k), cl.Tag, cl.Text, err.Error(), cl.Props)
+				return "true"
+			}
 			x.fail("walk %d invariant %s: %v", k, cl.Tag, err)
 			return "true"
 		}
